@@ -91,6 +91,25 @@ def r1(ctx):
             ok = (v == Rat.atom("l") + Rat.atom("i") * Rat.atom("length") and str(ro[0]) == "0" and ro[1] == Rat.atom("length")
                   and str(rb[0]) == "0" and rb[1] == Rat.atom("loops"))
             detail = "for l in %s..%s, i in %s..%s: %s" % (ro[0], ro[1], rb[0], rb[1], v)
+    if not ok:
+        # same fact on the E6 summary: the `coupled` field of the created block is [[l + i*length for i in 0..loops] for l in 0..length],
+        # however the two sequences are built (push loops, map/collect, mixed)
+        from .. import e6
+        E_ = e6.Exec(c, fn)
+        ps_ = [p for p in E_.run_fn() if p.exit is None or p.exit[0] == "return"]
+        LEN_ = ("call", "std::vec::Vec::<T, A>::len", (("p", "layers"),))
+        ok2 = bool(ps_)
+        for p in ps_:
+            val = p.val if p.exit is None else p.exit[1]
+            cv = dict(val[2]).get("coupled") if isinstance(val, tuple) and val and val[0] == "struct" else None
+            o_ = e6.elementwise_sequence(E_, cv) if cv is not None else None
+            i_ = e6.elementwise_sequence(E_, o_[1]) if o_ else None
+            good = (o_ is not None and i_ is not None and e6.range_of(o_[0]) == (("lit", "0"), LEN_) and e6.range_of(i_[0]) == (("lit", "0"), ("p", "loops"))
+                    and i_[1] == e6.mk_bin("Add", e6.mk_bin("Mul", i_[2], LEN_), o_[2]))
+            if not good:
+                ok2 = False
+                detail = "coupled = %s" % (e6.show(cv, 3)[:80] if cv is not None else "?")
+        ok = ok2
     ctx.check("R10.1", "coupled-groups", ok, "coupled:" + short(detail, 90), c.loc(fn), "coupled[l] = {l + i*length | i < loops}, l < length",
               "coupling groups are built as `%s`" % detail)
     lit = [x for x in walk(fn["body"]) if x.get("k") == "struct" and x["path"].endswith("feedback::Feedback")]
@@ -110,7 +129,9 @@ def variant_fields_written(c, arm, lh):
                 for y in walk(arm["body"]):
                     if y.get("k") == "letx" and any(h == l["hid"] for (_, h) in pat_binds(y["pat"])):
                         src = strip(y["init"])
-                        if src.get("k") == "field" and e4.local_hid(src["b"]) == lh:
+                        while src is not None and src.get("k") == "mcall" and src["name"] in ("as_mut", "as_deref_mut", "iter_mut") and not src["args"]:
+                            src = strip(src["recv"])          # `layer.bias.as_mut()` is `&mut layer.bias` seen through the Option
+                        if src is not None and src.get("k") == "field" and e4.local_hid(src["b"]) == lh:
                             out.add(src["f"])
     return out
 
